@@ -301,16 +301,33 @@ func TestHistories(t *testing.T) {
 func TestRefusedBeforeStart(t *testing.T) {
 	recR := ev.New(prop, "refused-before-start", "public API, both meters x 4 getters x {before Start, between Start and Close, after Close, after Close without Start}: a read of a meter that was never started is refused (panics), a read in between returns a finite non-negative value, a read after Close is refused or returns such a value; all non-trivial")
 	recR.Exhaustive()
-	type rc struct {
-		Kbps  bool   `json:"kbps"`
-		Get   int    `json:"get"`
-		Phase string `json:"phase"`
-	}
 	for _, kb := range []bool{true, false} {
 		for g := 0; g < 4; g++ {
 			for _, phase := range []string{"before", "running", "closed", "closed-unstarted"} {
 				c := rc{kb, g, phase}
-				err := func() error {
+				err := runRefuse(c)
+				recR.Case(true, ev.Hash(c), nil, func() any { return c })
+				if err != nil {
+					p := ev.Fail(prop, "refused-before-start", c, err)
+					t.Fatalf("%v (replay %s)", err, p)
+				}
+			}
+		}
+	}
+}
+
+type rc struct {
+	Kbps  bool   `json:"kbps"`
+	Get   int    `json:"get"`
+	Phase string `json:"phase"`
+}
+
+func runRefuse(c rc) error {
+	kb, g, phase := c.Kbps, c.Get, c.Phase
+	{
+		{
+			{
+				return func() error {
 					s := &src{v: 5}
 					var getters []func() float64
 					var start func() error
@@ -357,11 +374,6 @@ func TestRefusedBeforeStart(t *testing.T) {
 					}
 					return nil
 				}()
-				recR.Case(true, ev.Hash(c), nil, func() any { return c })
-				if err != nil {
-					p := ev.Fail(prop, "refused-before-start", c, err)
-					t.Fatalf("%v (replay %s)", err, p)
-				}
 			}
 		}
 	}
@@ -375,6 +387,12 @@ func replayers() map[string]ev.Replayer {
 		}
 		_, e := runCase(c)
 		return e
+	}, "refused-before-start": func(raw json.RawMessage) error {
+		var c rc
+		if err := json.Unmarshal(raw, &c); err != nil {
+			return err
+		}
+		return runRefuse(c)
 	}}
 }
 
